@@ -147,9 +147,9 @@ def histogram2d(data1, data2, bins=None, **kwargs):
         if hasattr(data1, "name") and hasattr(data2, "name"):
             kwargs["axis_names"] = [data1.name, data2.name]
     if not hasattr(data1, "dask"):
-        data1 = dask.array.from_array(data1, chunks=data1.size() / 100)
+        data1 = dask.array.from_array(data1, chunks=max(1, data1.size // 100))
     if not hasattr(data2, "dask"):
-        data2 = dask.array.from_array(data2, chunks=data2.size() / 100)
+        data2 = dask.array.from_array(data2, chunks=max(1, data2.size // 100))
 
     data = dask.array.stack([data1, data2], axis=1)
     kwargs["dim"] = 2
